@@ -5,7 +5,7 @@ from vlib.common import hexs
 from vlib.decsuite import D, parse_tok, cls_kind, planes_of
 
 THEOREMS = ["C03_early_end_copies_reference", "C03_early_end_loop", "C03_predicted_picture", "C03_picture_body_roundtrip", "C03_block_prediction", "C03_vector_wrap", "C03_chroma_vector_table", "C03_median", "C03_no_reference_is_an_error", "C03_code_tables", "C03_zero_vector_copies", "C03_predicted_picture_accurate"]
-BRIDGES = ["BridgeTables", "BridgeKMv", "BridgeKGather", "BridgePMacroblock", "BridgePBlock", "BridgePMvPred", "BridgePGather", "BridgePLoop", "BridgePNextLoop", "BridgePNext"]
+BRIDGES = ["BridgeTables", "BridgeKMv", "BridgeKGather", "BridgePMacroblock", "BridgePBlock", "BridgePMvPred", "BridgePGather", "BridgePLoop", "BridgePNextLoop", "BridgePNext", "BridgePReach"]
 SIZES = [(16, 16), (32, 16), (16, 32), (48, 32), (17, 9), (1, 1), (15, 33), (33, 18), (64, 16), (8, 40), (40, 40), (80, 24)]
 
 
